@@ -1,8 +1,20 @@
 (** C11 property theorems (statements only; proofs are in Proofs_C11.v). *)
 From AwkV Require Import Layout Valid Proofs_C11.
+From AwkV Require Import Types Proofs_Lists Proofs_ToList.
 
 (* The model of validityerror (checks in the C++ order) accepts exactly the layouts
    satisfying the declarative documented rules. *)
 Theorem validity_exact : forall c, valid_b c = true <-> Valid None c.
 Proof. exact (fun c => validity_exact_gen c None). Qed.
 Print Assumptions validity_exact.
+
+(* a layout obeying the documented rules always has a value (no failure, no out-of-bounds read),
+   provided the character buffers of its strings are usable (validity, like the C++ check, does
+   not look below a string node) *)
+Theorem valid_layouts_have_a_value : forall c p, Valid p c -> chars_ok c = true -> exists vs, to_list c = Ok vs.
+Proof. exact valid_to_list_total_partial. Qed.
+Print Assumptions valid_layouts_have_a_value.
+
+Theorem value_length_is_layout_length : forall c p vs, Valid p c -> to_list c = Ok vs -> zlen vs = clen c.
+Proof. exact to_list_length. Qed.
+Print Assumptions value_length_is_layout_length.
